@@ -21,6 +21,17 @@ def run(tier, seed, replay):
         mc = C.run_tlc("mc/MC_C01.tla", "mc/MC_C12_%s.cfg" % tier, "C12_mc", workers=8, replay_out=cases, timeout=1500)
         C.require_clean(mc, "MC_C01 with the crash cfg")
         run.add_tlc(mc)
+    if not replay:
+        # directed: a tile set spread over 60 blocks, so that the block index / the directories are hundreds of bytes long and
+        # the length fields of the final header have more than one significant byte (a torn header then carries a length that is
+        # wrong by a multiple of 256 and still points into the index)
+        tiles = [[12, 256 * (i % 16) + (i % 7), 256 * ((i // 16) * 3) + (i % 5), 1 + (i % 6)] for i in range(60)]
+        with open(cases, "a") as f:
+            # (versatiles only: a PMTiles reader streams a level-12 box of this extent coordinate by coordinate, for every cut; of
+            # these cases only the cuts of the last 4 operations and every 16th earlier operation boundary are enumerated)
+            for fmt, tc in (("versatiles", "none"), ("versatiles", "gzip"), ("versatiles", "brotli")):
+                f.write(json.dumps({"k": "case", "origin": "writer", "fmt": fmt, "tf": "pbf", "tc": tc, "tiles": tiles, "choices": {"none": 1},
+                                    "directed": "many_blocks", "only_last_ops": 4}) + "\n")
     case_list = C.read_ndjson(cases)
     t = os.path.join(d, "trace_cuts.ndjson")
     s = C.run_harness(hb, ["cuts", "C12", cases, t], timeout=6000)
